@@ -505,6 +505,24 @@ fn check_build(case: &Case, w: usize, r: &RunResult) -> Result<(), (String, Stri
         }
     }
 
+    // Names that belong to somebody: every item declared anywhere in the world, extern types
+    // and built-ins. Emitting one of those in a file whose module does not declare it is
+    // "something belonging to another module"; helper items with names of their own are not.
+    let mut owned_names: BTreeSet<String> = crate::model::BUILTINS.iter().map(|s| s.to_string()).collect();
+    for (_, _, m) in &parsed.modules {
+        for d in &m.definitions {
+            owned_names.insert(d.name.as_str().to_string());
+            if let pyxis::grammar::ItemDefinitionInner::Type(t) = &d.inner {
+                if t.statements.iter().any(|s| s.field.is_vftable()) {
+                    owned_names.insert(format!("{}Vftable", d.name.as_str()));
+                }
+            }
+        }
+        for (n, _) in &m.extern_types {
+            owned_names.insert(n.as_str().to_string());
+        }
+    }
+
     // 2. Per-file inventory.
     for (out, mi) in &expected {
         let (_, _, m) = &parsed.modules[*mi];
@@ -630,7 +648,7 @@ fn check_build(case: &Case, w: usize, r: &RunResult) -> Result<(), (String, Stri
                 }
             }
             for n in got.keys() {
-                if !want.contains(n) {
+                if !want.contains(n) && owned_names.contains(n) {
                     return Err((
                         "undeclared-item-emitted".into(),
                         format!("{out}: {what} `{n}` is emitted but not declared by this module"),
@@ -653,25 +671,6 @@ fn check_build(case: &Case, w: usize, r: &RunResult) -> Result<(), (String, Stri
                         format!("{out}: accessor `{n}` emitted {k} times"),
                     ))
                 }
-            }
-        }
-        for (n, k) in &got_fns {
-            if want_getters.contains(n) {
-                continue;
-            }
-            // Size checks `_<Item>_size_check` of this module's own items are the only other
-            // top-level functions pyxis emits.
-            let owner = n
-                .strip_prefix('_')
-                .and_then(|s| s.strip_suffix("_size_check"));
-            let ok = owner
-                .map(|o| want_structs.contains(o) || want_enums.contains(o))
-                .unwrap_or(false);
-            if !ok || *k != 1 {
-                return Err((
-                    "undeclared-item-emitted".into(),
-                    format!("{out}: top-level fn `{n}` (x{k}) belongs to nothing this module declares"),
-                ));
             }
         }
     }
